@@ -44,7 +44,7 @@ META = {
     "allowed_axioms": [],
     "rule": "seeded random trees (depth 1..4) built through darklua's node constructors over adversarial name/number/"
             "string pools, each at column spans {0,1,2,7,80,120,10^9}; exhaustive ordered pairs of 35 expression samples "
-            "(one per token class) in every syntactic position at all spans; all operator trees with <= 2 operator nodes, "
+            "(one per token class) in every syntactic position at spans 0, 7, unbounded (quick) or all spans (thorough); all operator trees with <= 2 operator nodes, "
             "triples (sampled in quick, exhaustive in thorough), deeper random trees; statement pairs; calls with 0/1 "
             "arguments at every span 0..len+2; long-bracket string candidates in every string position; a case is "
             "non-trivial when the dense output differs from the plain concatenation of the pushed texts (a separator or "
@@ -92,6 +92,19 @@ BINOPS = ["And", "Or", "Equal", "NotEqual", "LowerThan", "LowerOrEqualThan", "Gr
 UNOPS = ["Length", "Neg", "Not"]
 
 
+TY0 = {"n": "(TyName false)", "N": "(TyName true)", "f": "(TyField false)", "F": "(TyField true)", "k": "TyFunPack",
+       "g": "TyFunGeneric", "o": "TyOptional", "y": "TyTypeOf", "t": "TyTable", "a": "TyArray", "p": "TyParen",
+       "s": "TyString", "b": "TyBool", "z": "TyNil"}
+TY1 = {">": "TyFunType", "v": "TyFunVariadic", "u": "TyUnion", "i": "TyInter"}
+
+
+def ty_term(code):
+    """type code of the cast stream -> Coq term of Model.Precedence.ty"""
+    if code[0] in TY1:
+        return "(%s %s)" % (TY1[code[0]], ty_term(code[1:]))
+    return TY0[code[0]]
+
+
 def polish_term(polish):
     toks = polish.split(",")
     pos = [0]
@@ -108,7 +121,7 @@ def polish_term(polish):
         if t[0] == "U":
             return "(EUn %s %s)" % (UNOPS[int(t[1:])], go())
         if t[0] == "C":
-            return "(ECast %s %s)" % (go(), "CBare" if t[1:] == "0" else "CParam")
+            return "(ECast %s %s)" % (go(), ty_term(t[1:]))
         return "(EParen %s)" % go()
     return go()
 
@@ -120,9 +133,15 @@ Example current_table_ok : spacing_ok tbl = true.
 Proof. vm_compute. reflexivity. Qed.
 """
 
-CURRENT_PREC_V = """(** GENERATED/compiled on every run: the condition of the parenthesisation theorem on the dumped predicates. *)
+CURRENT_PREC_V = """(** GENERATED/compiled on every run: the condition of the parenthesisation theorem on the dumped predicates,
+    and the graph of the type walk of ends_with_type_cast_to_type_name_without_type_parameters over every
+    enumerated type (dumped from the Rust code) against its Gallina transcription [trailing_bare]. *)
 From DL Require Import Lib.Bytes Model.Precedence Model.C02Spec Generated.C02Tables.
 Example current_prec_ok : prec_ok ptbl = true.
+Proof. vm_compute. reflexivity. Qed.
+Definition dumped_type_walk : list (ty * bool) := [%s].
+Example current_type_walk_ok :
+  forallb (fun c => Bool.eqb (left_cast ptbl LowerThan (trailing_bare (fst c))) (snd c)) dumped_type_walk = true.
 Proof. vm_compute. reflexivity. Qed.
 """
 
@@ -431,8 +450,10 @@ def run_ops(ctx, rows, exe, vm_sample):
 def run_casts(ctx, out, exe, vm_sample):
     """Gap 'trailing cast': comparison (and control) operators whose left operand ends, along the right spine, in a cast"""
     name = ("trailing casts: left/right operands whose right spine (binary right, unary operand, nested casts; if-else results "
-            "outside the model) ends in a cast to T / T<P> / M.T / T? (and () -> T, A | T, A & T, {T} outside the model) "
-            "under < <= > >= == ~= + .. and, with left-spine-only and explicit-parenthese controls; dense, readable and "
+            "outside the model) ends in a cast; 38 types covering every arm of the type walk (names, M.T, function types "
+            "returning a name / variadic pack / type pack / generic pack / nested, unions and intersections by last member, "
+            "T?, typeof, table, array, parenthesised, literal types) under < and control operators, with left-spine-only and "
+            "explicit-parenthese controls; dense, readable and "
             "token-based generators at spans 1, 7, unbounded: modelled printer, reference parser, darklua parser round trip")
     rows = []
     for line in out.splitlines():
@@ -664,6 +685,72 @@ def run_strings(ctx, out, exe, vm_sample):
                       key="string-literal:%s" % r["value"][-60:])
 
 
+PREAMBLE_LEAF = """From DL Require Import Lib.Bytes Model.Lexer Model.DenseGen Model.Precedence Model.C02Check.
+Open Scope N_scope.
+Open Scope string_scope.
+Definition lc (i : bool) (v d r : string) : bool * vcase :=
+  (i, {| v_value := unhex v; v_dense := unhex d; v_readable := unhex r |}).
+Definition check_case (c : bool * vcase) : bool := if fst c then icheck_case (snd c) else vcheck_case (snd c).
+Definition diag_case (c : bool * vcase) : string := if fst c then "INTERP-STRING" else to_string (vdiag_bytes (snd c)).
+"""
+
+
+def run_leaves(ctx, out, exe, vm_sample):
+    """literal leaves: the reference decoder applied to the literal token the reference lexer finds in the output"""
+    name = ("literal leaves: quoted and backtick strings where a byte without a named escape (0,1,2,5,6,14,27,31,127,200) is "
+            "followed by each digit 0-9; strings long enough for the long bracket form containing CR, CRLF, LFCR, TAB, FF, "
+            "control bytes, a leading new line, ]] / ]=] inside, a trailing ] or ]=; numbers (decimal incl. extremes and "
+            "exponent forms, hexadecimal, binary): the reference lexer finds one literal token, the reference decoder "
+            "(Model/StringLit) decodes it to the node's value; numbers are re-read by Rust's std parser")
+    rows = []
+    for line in out.splitlines():
+        p = line.split(" ")
+        if len(p) != 10 or p[0] != "leaf":
+            continue
+        rows.append({"span": int(p[2]), "kind": p[3], "value": undash(p[4]), "dense": undash(p[5]), "readable": undash(p[6]),
+                     "dflag": p[7], "rflag": p[8], "extra": p[9]})
+    strs = [i for i, r in enumerate(rows) if r["kind"] in ("s", "i")]
+    lines = ["%s %d %s %s %s" % ("str" if rows[i]["kind"] == "s" else "istr", i, rows[i]["value"] or "-",
+                                 rows[i]["dense"] or "-", rows[i]["readable"] or "-") for i in strs]
+    rc, res = C.sh([exe], input="\n".join(lines) + "\n", timeout=3000)
+    bad = {}
+    done = None
+    for line in res.splitlines():
+        if line.startswith("bad "):
+            _, cid, diag = (line.split(" ", 2) + [""])[:3]
+            bad[int(cid)] = diag.strip()
+        elif line.startswith("done "):
+            done = int(line.split()[1])
+    if rc != 0 or done != len(lines):
+        raise C.CheckBroken("extracted C02 checker failed on literal leaves (rc=%s):\n%s" % (rc, res[-1500:]))
+    pick = sorted(set(strs[::max(1, len(strs) // vm_sample)] + sorted(bad)[:10]))
+    vm_bad = C.run_coq_cases(ctx.prop, PREAMBLE_LEAF,
+                             [(i, 'lc %s "%s" "%s" "%s"' % ("true" if rows[i]["kind"] == "i" else "false", rows[i]["value"],
+                                                            rows[i]["dense"], rows[i]["readable"])) for i in pick],
+                             chunk=max(8, len(pick) // C.NPROC + 1), tag="leaves")
+    vm_ids = set(cid for cid, _ in vm_bad)
+    disagree = [i for i in pick if (i in vm_ids) != (i in bad)]
+    ctx.obligation("extracted checker agrees with vm_compute inside coqc on %d sampled literal leaves" % len(pick),
+                   not disagree, "disagreements at cases %r" % disagree[:5])
+    for i, r in enumerate(rows):
+        if r["kind"] == "n" and r["extra"] != "ok":
+            bad[i] = "NUMBER re-read by std differs from the node's value"
+        if r["dflag"] not in ("ok", "okp") or r["rflag"] not in ("ok", "okp"):
+            bad[i] = (bad.get(i, "") + " darklua parser: %s/%s" % (r["dflag"], r["rflag"])).strip()
+    # non-trivial: the literal contains an escape or is a long bracket
+    nt = sum(1 for r in rows if r["kind"] == "n" or b"\\" in bytes.fromhex(r["dense"]) or b"[[" in bytes.fromhex(r["dense"])
+             or b"[=" in bytes.fromhex(r["dense"]))
+    leaves = len(set((r["kind"], r["value"]) for r in rows))
+    ctx.stream(name, len(rows), nt, [{"value_hex": r["value"], "dense": text_of(r["dense"])} for r in rows[15:18]],
+               mismatches=len(bad), distinct_leaves=leaves, evaluated_in_coqc=len(pick))
+    for i in sorted(bad)[:4]:
+        r = rows[i]
+        ctx.violation("a literal leaf is not written as a literal that means its value (%s)" % bad[i],
+                      {"kind": {"s": "string", "i": "backtick string", "n": "number"}[r["kind"]], "value_hex": r["value"],
+                       "span": r["span"], "dense": text_of(r["dense"]), "readable": text_of(r["readable"])},
+                      key="leaf:%s:%s" % (r["kind"], r["value"][:60]))
+
+
 def dump_tables(ctx):
     out = C.harness("dl-c02", ["tables", "--seed", str(ctx.seed)])
     tables = T.parse_tables(out)
@@ -694,8 +781,11 @@ def run(ctx):
     ctx.cov.setdefault("streams", {})
     proofs_ok = C.proof_gate(ctx, extra_targets=["Generated/C02Tables.vo", "Model/C02Check.vo", "Model/Precedence.vo"])
     # the decidable conditions of the theorems, re-evaluated on the tables dumped from the current code
+    walk = "; ".join("(%s, %s)" % (ty_term(code), "true" if flag else "false") for code, flag in prec["tywalk"])
     for fname, text, name in (("C02Current.v", CURRENT_V, "current_table_ok: spacing_ok tbl = true"),
-                              ("C02CurrentPrec.v", CURRENT_PREC_V, "current_prec_ok: prec_ok ptbl = true")):
+                              ("C02CurrentPrec.v", CURRENT_PREC_V % walk,
+                               "current_prec_ok: prec_ok ptbl = true; current_type_walk_ok: trailing_bare = dumped type walk "
+                               "on %d types" % len(prec["tywalk"]))):
         path = os.path.join(C.COQ, "Generated", fname)
         T.write_if_changed(path, text)
         with C.Lock("coq"):
@@ -715,7 +805,7 @@ def run(ctx):
     model_only = run_stream(ctx, "random trees: model of the push automaton vs dense.rs; reference lexer on both generators; darklua parser round trip",
                             rows, exe, 160 if quick else 600)
 
-    out = C.harness("dl-c02", ["pairs", "--all-spans"], timeout=1800)
+    out = C.harness("dl-c02", ["pairs"] + ([] if quick else ["--all-spans"]), timeout=1800)   # quick: spans 0, 7, unbounded
     rows = parse_cases(out)
     model_only += run_stream(ctx, "adjacent pairs: every ordered pair of 35 expression samples (one per token class) written next to "
                              "each other in every syntactic position", rows, exe, 60 if quick else 300)
@@ -742,6 +832,8 @@ def run(ctx):
                        "token_based": text_of(r["tokenbased"]), "diag": diag, "mismatches": len(casts_model_only)},
                       found_input=False)
     run_sources(ctx, C.harness("dl-c02", ["sources"], timeout=1800))
+
+    run_leaves(ctx, C.harness("dl-c02", ["leaves"], timeout=1800), exe, 40 if quick else 200)
 
     rows = parse_cases(C.harness("dl-c02", ["calls"], timeout=1800))
     model_only += run_stream(ctx, "calls at small spans: zero- and one-argument calls (function and method form, chains, parenthesised "
